@@ -7,7 +7,9 @@ import traceback
 import zx
 from zx.core import ZXError, Inconclusive, BoundExceeded
 
-SRC = '/repo/src'
+import os as _os
+# /repo/src unless VERIF_REPO_SRC points at another checkout (used only by tools/seedcheck.py to test seeded changes in a scratch worktree)
+SRC = _os.environ.get('VERIF_REPO_SRC', '/repo/src')
 _MODS = {}
 
 
